@@ -348,3 +348,4 @@ def check(facts, rep, tier, cfg):
     import whomay
     whomay.check(facts, rep, "C16.S7", "C16")
     whomay.check_new_statics(facts, rep, "C16.S7", "C16")
+    whomay.check_new_trait_methods(facts, rep, "C16.S7", "C16")
